@@ -200,7 +200,9 @@ def catToGroup (g1 : GL) (rows2 : Rows) (minFreq : Rat) (strNan : String) : List
 
 /-- grouping of the rare values into `str_default` (order and column) -/
 def catGroupRare (g1 : GL) (rows2 : Rows) (toGroup : List Val) (strDefault : String) : Except Err (GL × Rows) :=
-  if toGroup.any Val.truthy then
+  -- `if len(values_to_group) > 0` (repaired: the test used to be `any(values_to_group)`, the truthiness of the values, so
+  -- that a rare empty-string category on its own was never grouped)
+  if !toGroup.isEmpty then
     match (g1.append (.str strDefault)).groupList toGroup (.str strDefault) with
     | (g', none) => .ok (g', rows2.map (fun r => match r.1 with
         | some v => if v ∈ toGroup then (some (Val.str strDefault), r.2) else r
